@@ -97,6 +97,11 @@ fn e23_choices() -> Vec<String> {
             v.push(format!("{a}+{b}"));
         }
     }
+    for a in E23_CODES {
+        for b in E23_CODES {
+            v.push(format!("{a}!+{b}!"));
+        }
+    }
     v.push("SDVA+INTC+REPA".into());
     v.push("CORT+INTC+SDVA".into());
     v
@@ -1258,7 +1263,14 @@ fn mt101_codes() -> Model {
             c23.push(format!("{a}+{b}"));
         }
     }
+    // two per-code errors on different codes, with and without a forbidden combination
+    for a in M101_CODES {
+        for b in M101_CODES {
+            c23.push(format!("{a}!+{b}!"));
+        }
+    }
     c23.push("OTHR!+OTHR!+OTHR".into());
+    c23.push("CHQB!+RTGS!+URGP!".into());
     let dims = vec![
         ("23E-in-B1", c23),
         ("32B-amount", s(&["non-zero", "zero"])),
@@ -1499,7 +1511,7 @@ pub fn judge(case: &Case, l: &mut Local) {
     // C13 coherence on the same message (full envelope needed: wrap the body in a corpus envelope)
 }
 
-fn make_case(m: &Model, choice: &[u8]) -> Case {
+fn make_case(m: &Model, choice: &[u16]) -> Case {
     let labels: Vec<&str> = choice.iter().enumerate().map(|(i, c)| m.dims[i].1[*c as usize].as_str()).collect();
     Case {
         mt: m.mt.to_string(),
@@ -1511,19 +1523,19 @@ fn make_case(m: &Model, choice: &[u8]) -> Case {
 }
 
 /// baseline plus all one- and two-dimensional sweeps around it
-fn sweeps(m: &Model) -> Vec<Vec<u8>> {
+fn sweeps(m: &Model) -> Vec<Vec<u16>> {
     let sizes: Vec<usize> = m.dims.iter().map(|d| d.1.len()).collect();
-    let base = vec![0u8; sizes.len()];
+    let base = vec![0u16; sizes.len()];
     let mut out = vec![base.clone()];
     for a in 0..sizes.len() {
         for x in 1..sizes[a] {
             let mut c = base.clone();
-            c[a] = x as u8;
+            c[a] = x as u16;
             out.push(c.clone());
             for b in a + 1..sizes.len() {
                 for y in 1..sizes[b] {
                     let mut c2 = c.clone();
-                    c2[b] = y as u8;
+                    c2[b] = y as u16;
                     out.push(c2);
                 }
             }
@@ -1539,7 +1551,7 @@ pub fn sweep_bodies(max_per_type: usize) -> Vec<(String, Value)> {
         let sw = sweeps(&m);
         // every point that deviates from the baseline in at most one dimension, then an even sample of the
         // two-dimensional ones up to the cap
-        let (one, two): (Vec<&Vec<u8>>, Vec<&Vec<u8>>) = sw.iter().partition(|c| c.iter().filter(|x| **x != 0).count() <= 1);
+        let (one, two): (Vec<&Vec<u16>>, Vec<&Vec<u16>>) = sw.iter().partition(|c| c.iter().filter(|x| **x != 0).count() <= 1);
         for c in &one {
             out.push((m.mt.to_string(), make_case(&m, c).body));
         }
@@ -1556,18 +1568,18 @@ pub fn run(cfg: &Config) -> i32 {
     let started = std::time::Instant::now();
     let models = models();
     // points are (model index, choice vector); rendered inside the workers
-    let mut points: Vec<(u16, Vec<u8>)> = Vec::new();
+    let mut points: Vec<(u16, Vec<u16>)> = Vec::new();
     let mut r = Rng::new(cfg.seed, "c04", 0);
     let exhaustive_limit = cfg.tier.pick(60_000usize, 3_000_000usize);
     let random_points = cfg.tier.pick(60_000usize, 2_000_000usize);
     let mut exhaustive_types: Vec<&str> = Vec::new();
     for (mi, m) in models.iter().enumerate() {
         let sizes: Vec<usize> = m.dims.iter().map(|d| d.1.len()).collect();
-        assert!(sizes.iter().all(|n| *n < 256));
+        assert!(sizes.iter().all(|n| *n < 65536));
         let total: usize = sizes.iter().product();
         if total <= exhaustive_limit {
             exhaustive_types.push(m.mt);
-            let mut choice = vec![0u8; sizes.len()];
+            let mut choice = vec![0u16; sizes.len()];
             loop {
                 points.push((mi as u16, choice.clone()));
                 let mut k = 0;
@@ -1588,7 +1600,7 @@ pub fn run(cfg: &Config) -> i32 {
                 points.push((mi as u16, c));
             }
             for _ in 0..random_points {
-                points.push((mi as u16, sizes.iter().map(|n| r.below(*n) as u8).collect()));
+                points.push((mi as u16, sizes.iter().map(|n| r.below(*n) as u16).collect()));
             }
         }
     }
